@@ -190,8 +190,18 @@ def cargo_build(profile):
     cmd = ["cargo", "+nightly", "build", "--offline"]
     if profile == "release":
         cmd.append("--release")
+    elif profile != "debug":
+        cmd += ["--profile", profile]
     rc, out = sh(cmd, cwd=harness_dir(), timeout=3600)
     return rc == 0, out
+
+
+def crate_builds():
+    """Does the crate under verification compile on its own (default features + verif_hooks)?"""
+    env = env_offline()
+    env["CARGO_TARGET_DIR"] = os.path.join(WORK, "crate_target")
+    rc, _ = sh(["cargo", "+nightly", "build", "--offline", "--features", "verif_hooks"], cwd=REPO, timeout=1800, env=env)
+    return rc == 0
 
 
 def harness_bin(profile):
@@ -394,6 +404,15 @@ def check(pid, tier, seed):
         for profile in cfg.get("profiles", ["debug"]):
             ok, out = cargo_build(profile)
             if not ok:
+                # Does the crate itself still compile? Then the harness no longer fits its public interface or
+                # behaviour-carrying items (an impl, a trait bound, a constant) disappeared: a broken
+                # correspondence, not a failure of the machinery.
+                if crate_builds():
+                    errs = [l for l in out.split("\n") if l.startswith("error")]
+                    broken.append({"what": f"corr:harness-build profile={profile}",
+                                   "detail": "the correspondence harness no longer compiles against the crate "
+                                             "(the crate itself does):\n" + "\n".join(errs[:12]) + "\n" + out[-1500:]})
+                    break
                 framework_errors.append(f"cargo build ({profile}) failed:\n" + out[-3000:])
                 continue
             r = run_pipeline(pid, profile, tier, seed)
@@ -519,7 +538,8 @@ def setup():
     ok1, out = lake_build(["X86Model", "driver"])
     print("lake build:", "ok" if ok1 else "FAILED\n" + out[-4000:])
     rc = 0 if (ok and ok1) else 1
-    for profile in ["debug", "release"]:
+    profiles = ["debug", "release"] + sorted({p for c in PROPS.values() for p in c.get("profiles", [])} - {"debug", "release"})
+    for profile in profiles:
         ok2, out = cargo_build(profile)
         print(f"cargo build {profile}:", "ok" if ok2 else "FAILED\n" + out[-4000:])
         if not ok2:
